@@ -18,9 +18,9 @@ for V in s u; do
   par clang -c $CF $X $REPO/igris/dprint/dprint_func_impl.c -o $BUILD/dprint_$V.o
   par clang -c $LIBC $X $REPO/compat/libc/stdlib/itoa.c -o $BUILD/itoa_$V.o
   par clang -c $LIBC $X $REPO/compat/libc/stdlib/atol.c -o $BUILD/atol_$V.o
-  par clang++ -std=c++17 -c $CF $X $H/c07_int.cpp -o $BUILD/h_$V.o
+  par clang++ -std=c++20 -c $CF $X $H/c07_int.cpp -o $BUILD/h_$V.o
 done
-par clang++ -std=c++17 -O2 -c -I$MC $MC/mc.cpp -o $BUILD/mc.o
+par clang++ -std=c++20 -O2 -c -I$MC $MC/mc.cpp -o $BUILD/mc.o
 parwait
 for s in itoa utoa ltoa ultoa; do R="$R --redefine-sym $s=igc_$s"; done
 for V in s u; do
